@@ -669,6 +669,8 @@ def nonforeign(nodes):
 # Symbolic value of a MIR operand (flow-insensitive over single-assignment temporaries)
 # --------------------------------------------------------------------------------------------
 def const_val(c):
+    if "bytes" in c:
+        return ("bytes", tuple(c["bytes"]))
     for k in ("fn", "closure", "static", "str", "char", "bool", "variant", "int", "float"):
         if k in c:
             if k == "int" and "variant" in c and c["variant"]:
